@@ -724,3 +724,26 @@ def same_bits(a, b):
 def show(x):
     a = canon(x)
     return f"{a.dtype}{list(a.shape)}{a.tolist()}"
+
+
+def eval_jaxpr_reference(f_ref, args):
+    """JAX's own jaxpr evaluator applied to the pure-JAX reference program: binds every primitive of
+    the staged program eagerly with the same literal operands as genjax's interpreters do. Used only as
+    a second opinion when an interpreter disagrees with plain evaluation: on this platform the eager
+    executable of a `while` primitive occasionally misbehaves (history dependent, reproduced with
+    jax.core.eval_jaxpr on pure JAX code), which is not genjax's doing."""
+    import jax
+
+    cj = jax.make_jaxpr(f_ref, return_shape=True)
+    closed, shape = cj(*args)
+    flat = jax.core.eval_jaxpr(closed.jaxpr, closed.consts, *jax.tree_util.tree_leaves(args))
+    return list(flat)
+
+
+def disable_persistent_compilation_cache():
+    """Executables that XLA:CPU loads from JAX's persistent compilation cache were observed to run
+    eager `while` primitives with zero iterations (correct when compiled in-process). Checks that
+    evaluate programs primitive by primitive must not use it."""
+    import jax
+
+    jax.config.update("jax_enable_compilation_cache", False)
